@@ -879,6 +879,13 @@ def _tarExtractFilter(member, path):
     if os.path.isabs(name):
         raise BuildError(f"Refusing to extract absolute path '{name}' from tar file.")
 
+    # Archives never hold ".." in member names. Such names cannot be confined
+    # reliably: realpath() resolves ".." lexically behind components that do
+    # not exist while tarfile creates these missing directories physically,
+    # possibly through symlinks that lead out of the destination.
+    if ".." in name.replace(os.sep, '/').split('/'):
+        raise BuildError(f"Refusing to extract '{name}' from tar file. Path contains '..'.")
+
     # Ensure we stay in the destination
     full_name = os.path.realpath(os.path.join(path, name))
     if os.path.commonpath([full_name, path]) != path:
